@@ -280,18 +280,18 @@ def interp_util_harnesses() -> List[Harness]:
 
 def data_util_harnesses() -> List[Harness]:
     out = []
-    out.append(Harness("l0_separate_bytes", ["C04", "C05"],
+    out.append(Harness("l0_separate_bytes", ["C04", "C05", "C12"],
                        "        let in_op1: i16 = kani::any();\n        let r = separate_bytes(in_op1);\n"
                        + A("l0.separate_bytes.high_low", "r.0 == ((in_op1 as u16) >> 8) as u8 && r.1 == (in_op1 as u16) as u8"),
                        ["l0.separate_bytes.high_low"], ["separate_bytes"]))
-    out.append(Harness("l0_get_byte_reg", ["C04"],
+    out.append(Harness("l0_get_byte_reg", ["C04", "C18"],
                        fenced() + f"        let in_k: u8 = kani::any();\n        kani::assume(in_k < 8);\n        let old = {V}::regs(&vm);\n"
                        f"        let r = get_byte_reg(&vm, {V}::byte_reg_of(in_k));\n"
                        + A("l0.get_byte_reg.aliases_half", f"r == {V}::spec_get8(&old, in_k)")
                        + A("l0.get_byte_reg.frame", f"{V}::regs(&vm) == old")
                        + f"        {V}::forget_vm(vm);\n",
                        ["l0.get_byte_reg.aliases_half", "l0.get_byte_reg.frame"], ["get_byte_reg"]))
-    out.append(Harness("l0_set_byte_reg", ["C04"],
+    out.append(Harness("l0_set_byte_reg", ["C04", "C18"],
                        fenced() + f"        let in_k: u8 = kani::any();\n        kani::assume(in_k < 8);\n        let in_op1: u8 = kani::any();\n"
                        f"        let mut exp = {V}::regs(&vm);\n        {V}::spec_set8(&mut exp, in_k, in_op1);\n"
                        f"        set_byte_reg(&mut vm, {V}::byte_reg_of(in_k), in_op1);\n"
@@ -322,7 +322,7 @@ def address_harnesses() -> List[Harness]:
                        "        let in_op1: usize = kani::any();\n        let r = make_valid_address(in_op1);\n"
                        + A("l0.make_valid_address.mod_2_20", f"r == in_op1 % (1usize << 20) && r < {MBx}"),
                        ["l0.make_valid_address.mod_2_20"], ["make_valid_address"]))
-    out.append(Harness("l0_inc_addr", ["C04", "C09"],
+    out.append(Harness("l0_inc_addr", ["C04", "C09", "C12"],
                        f"        let in_op1: usize = kani::any();\n        let in_op2: usize = kani::any();\n"
                        f"        kani::assume(in_op1 < {MBx} && in_op2 <= 0x10000); // call sites: inc_addr(m,1), inc_addr(base, al)\n"
                        "        let r = inc_addr(in_op1, in_op2);\n"
